@@ -103,4 +103,34 @@ def pfxJudge (kind : String) (truncated : Bool) (impl : String) : String :=
       else "ok"
     | _ => s!"fail:driver:unparsable observation {impl.take 60}"
 
+/-- an injected I/O fault (the read that reaches a given byte of the file fails / the n-th seek to the start of the file
+fails): the provider was run without the fault (`A[…]`) and with it (`B[…]`), same file, same options.
+* the faulty run ends with an error - unless it is the fault-free run over again (the limit was reached, or the file was
+  not read again, before the fault could happen);
+* what it delivered before is what the fault-free run delivers first (`read`: but for its last entry - a scanner hands
+  out the line the fault cut short). -/
+def fltJudge (kind mode : String) (impl : String) : String :=
+  match crashVerdict kind impl with
+  | some v => v
+  | none =>
+    if containsSub impl "oom-guard" then "skip:oom-guard" else
+    match impl.splitOn "] B[" with
+    | [a, b] =>
+      let a := (a.drop 2).toString
+      let entries (o : String) : List String :=
+        if (kvOf o "n").toNat?.getD 0 == 0 then [] else (kvOf o "e").splitOn ","
+      let ea := entries a
+      let eb := entries b
+      let endA := kvOf a "end"
+      let endB := (kvOf b "end").dropEndWhile (· == ']') |>.toString
+      let ebFirm := if mode == "read" then eb.dropLast else eb
+      let isErr := endB.startsWith "err" || endB.startsWith "ctor-err"
+      if !ebFirm.isPrefixOf ea then
+        s!"fail:prefix:{kind} delivered entries that the run without the I/O fault does not deliver"
+      else if isErr then "ok"
+      -- the run ended before the fault mattered (limit, preload, no ammo); `read`: the last entry may be the line the fault cut short
+      else if endB == endA && eb.length == ea.length && ebFirm == (if mode == "read" then ea.dropLast else ea) then "ok"
+      else s!"fail:accepted:{kind} an I/O error ({mode}) was not reported, end={endB} after {eb.length} entries"
+    | _ => s!"fail:driver:unparsable observation {impl.take 60}"
+
 end Pandora.Spec.C13
